@@ -55,7 +55,7 @@ func fieldOfReceiver(f *ssa.Function, addr ssa.Value) string {
 		switch x := v.(type) {
 		case *ssa.FieldAddr:
 			st := x.X.Type().Underlying().(*types.Pointer).Elem().Underlying().(*types.Struct)
-			walk(x.X, st.Field(x.Field).Name())
+			walk(x.X, core.FieldName(st, x.Field))
 		case *ssa.IndexAddr:
 			walk(x.X, lastField)
 		case *ssa.UnOp:
